@@ -67,7 +67,7 @@ PROPERTIES = {
 }
 
 BACKENDS = ["atlas", "cms_aod", "cms_miniaod"]
-N_RUNS = {"quick": 320, "thorough": 6000}
+N_RUNS = {"quick": 400, "thorough": 6000}
 _scratch = None
 _tc = None
 
@@ -386,6 +386,7 @@ def _c06(case, exe, work, res):
 
 
 RETRIEVAL_MARKERS = ("retrieve", "getByLabel", "getByToken", "Handle", "result", "evtStore", "consumes", "Container", "Collection")
+FETCH_CODE = ("getByToken", "getByLabel", "evtStore()->retrieve", "EDGetTokenT", "consumes<", "Handle<")
 
 
 def _build_only(case):
@@ -432,7 +433,12 @@ def _execute_inner(case):
         if exe is None:
             if status == "uncompilable":
                 res["stats"]["blocked:" + case["backend"]] = 1
-                if case["prop"] == "C06" and case.get("pre"):
+                if case["prop"] == "C06" and any(m in (err or "") for m in FETCH_CODE):
+                    # the statements that fetch a collection (or declare / initialise its token) are not C++:
+                    # the job cannot ask the store for what the query names
+                    res["violations"].append({"property": "C06", "invariant": "retrieval-contract",
+                                              "detail": f"the generated code that fetches a collection does not compile: {err}"})
+                elif case["prop"] == "C06" and case.get("pre"):
                     res["uncompilable_after_history"] = err
             return res
         res["states"].append(fingerprint([case["query"]["shape"], case["backend"]]))
